@@ -243,6 +243,19 @@ pub fn compare_decode(ctx: &Ctx, s: &Shape, input: &[u8], order: u64, st: &mut L
                         order,
                         case(),
                     );
+                } else if at_end == placements[0] {
+                    // the reader entry points accept the same message and leave exactly the same bytes unread
+                    let want_rest = input.len() - consumed;
+                    let mut scratch = vec![0u8; input.len() + 8];
+                    match trap(|| postcard::from_io::<Dyn, _>((input, &mut scratch[..])).map(|(Dyn(x), (rest, _))| (x, rest.len()))) {
+                        Ok(Ok((x, rest))) if &x == v && rest == want_rest => {}
+                        other => ctx.violation("reader-disagrees", format!("from_io gives {:?}; the slice decoder accepts {:?} and leaves {} bytes", other, v, want_rest), order, case()),
+                    }
+                    let mut scratch = vec![0u8; input.len() + 8];
+                    match trap(|| postcard::from_eio::<Dyn, _>((crate::checks::c01::EioSlice(input), &mut scratch[..])).map(|(Dyn(x), (rest, _))| (x, rest.0.len()))) {
+                        Ok(Ok((x, rest))) if &x == v && rest == want_rest => {}
+                        other => ctx.violation("reader-disagrees", format!("from_eio gives {:?}; the slice decoder accepts {:?} and leaves {} bytes", other, v, want_rest), order, case()),
+                    }
                 }
             }
             (Err(k), Err(e)) => {
